@@ -375,6 +375,7 @@ DEFAULT_PROFILE = dict(
     p_sparse_namespace=0.0,
     p_shared_route_name=0.0,
     p_alias_of_container_of_alias=0.0,
+    p_multi_ns_doc=0.0,
     route_alias_user_only=False,
 )
 
@@ -1494,6 +1495,9 @@ class Gen:
                 rt.doc = self.doc(self.doc_refs_for(ns) if p['route_docs_refs'] else None)
             if self.chance('p_ns_doc'):
                 ns.docs = [self.doc(force=True)]
+                if p.get('p_multi_ns_doc') and r.random() < p['p_multi_ns_doc']:
+                    ns.docs += [self.doc(force=True) for _ in range(r.choice([1, 1, 2]))]
+                    m.feature('namespace_doc_in_several_files')
         if self.chance('p_cfg') or p['cfg_style']:
             self.gen_cfg()
         self.gen_examples()
